@@ -1,38 +1,56 @@
 // ---- vocabulary over the range forest and the marker list (inside `mod remover`) ----
-pub open spec fn node_lo(t: RemovalRangeTree) -> int { t.range.0.start as int }
-pub open spec fn node_hi(t: RemovalRangeTree) -> int {
+/// ghost mirror of RemovalRangeTree (Seq instead of Vec)
+pub struct GTree { pub range: RemovableRange, pub children: Seq<GTree> }
+pub open spec fn vt(t: RemovalRangeTree) -> GTree
+    decreases t,
+{
+    GTree { range: t.range, children: Seq::new(t.children@.len(), |i: int| if 0 <= i < t.children@.len() { vt(t.children@[i]) } else { arbitrary() }) }
+}
+pub open spec fn vf(f: Seq<RemovalRangeTree>) -> Seq<GTree> { Seq::new(f.len(), |i: int| vt(f[i])) }
+pub proof fn lemma_vf_push(f: Seq<RemovalRangeTree>, t: RemovalRangeTree)
+    ensures vf(f.push(t)) == vf(f).push(vt(t)),
+{ assert(vf(f.push(t)) =~= vf(f).push(vt(t))); }
+pub proof fn lemma_vf_add(f: Seq<RemovalRangeTree>, g: Seq<RemovalRangeTree>)
+    ensures vf(f + g) == vf(f) + vf(g),
+{ assert(vf(f + g) =~= vf(f) + vf(g)); }
+pub proof fn lemma_vt_children(t: RemovalRangeTree)
+    ensures vt(t).children == vf(t.children@), vt(t).range == t.range,
+{ assert(vt(t).children =~= vf(t.children@)); }
+
+pub open spec fn node_lo(t: GTree) -> int { t.range.0.start as int }
+pub open spec fn node_hi(t: GTree) -> int {
     match t.range.1 { Some(e) => e.end as int, None => t.range.0.end as int }
 }
-pub open spec fn node_ranges_ok(t: RemovalRangeTree) -> bool {
-    &&& t.range.0.start <= t.range.0.end
+pub open spec fn node_ranges_ok(t: GTree) -> bool {
+    &&& t.range.0.start < t.range.0.end
     &&& match t.range.1 { Some(e) => t.range.0.end <= e.start && e.start <= e.end, None => true }
 }
 /// forest strictly inside (lo, hi): siblings ascending and disjoint, every node's children strictly inside its extent
-pub open spec fn wf_forest(f: Seq<RemovalRangeTree>, lo: int, hi: int) -> bool
+pub open spec fn wf_forest(f: Seq<GTree>, lo: int, hi: int) -> bool
     decreases f,
 {
     &&& forall|i: int| 0 <= i < f.len() ==> lo < node_lo(#[trigger] f[i]) && node_hi(f[i]) < hi && node_ranges_ok(f[i])
-    &&& forall|i: int| 0 <= i < f.len() ==> wf_forest((#[trigger] f[i]).children@, node_lo(f[i]), node_hi(f[i]))
+    &&& forall|i: int| 0 <= i < f.len() ==> wf_forest((#[trigger] f[i]).children, node_lo(f[i]), node_hi(f[i]))
     &&& forall|i: int, j: int| 0 <= i < j < f.len() ==> node_hi(#[trigger] f[i]) <= node_lo(#[trigger] f[j])
 }
-/// byte p lies in the head or tail range of some node of the forest (any depth)
-pub open spec fn forest_covered(f: Seq<RemovalRangeTree>, p: int) -> bool
-    decreases f,
-{
-    exists|i: int| 0 <= i < f.len() && (
-        rcontains_i((#[trigger] f[i]).range.0, p)
-        || (f[i].range.1 matches Some(e) && rcontains_i(e, p))
-        || forest_covered(f[i].children@, p))
-}
 pub open spec fn rcontains_i(m: Range<usize>, p: int) -> bool { m.start <= p < m.end }
-/// x is the start or end of the head or tail range of some node of the forest
-pub open spec fn forest_endpoint(f: Seq<RemovalRangeTree>, x: usize) -> bool
+pub open spec fn node_self_covered(t: GTree, p: int) -> bool {
+    rcontains_i(t.range.0, p) || (t.range.1 matches Some(e) && rcontains_i(e, p))
+}
+/// byte p lies in the head or tail range of some node of the forest (any depth)
+pub open spec fn forest_covered(f: Seq<GTree>, p: int) -> bool
     decreases f,
 {
-    exists|i: int| 0 <= i < f.len() && (
-        (#[trigger] f[i]).range.0.start == x || f[i].range.0.end == x
-        || (f[i].range.1 matches Some(e) && (e.start == x || e.end == x))
-        || forest_endpoint(f[i].children@, x))
+    exists|i: int| 0 <= i < f.len() && (node_self_covered(#[trigger] f[i], p) || forest_covered(f[i].children, p))
+}
+pub open spec fn node_self_endpoint(t: GTree, x: usize) -> bool {
+    t.range.0.start == x || t.range.0.end == x || (t.range.1 matches Some(e) && (e.start == x || e.end == x))
+}
+/// x is the start or end of the head or tail range of some node of the forest
+pub open spec fn forest_endpoint(f: Seq<GTree>, x: usize) -> bool
+    decreases f,
+{
+    exists|i: int| 0 <= i < f.len() && (node_self_endpoint(#[trigger] f[i], x) || forest_endpoint(f[i].children, x))
 }
 
 pub open spec fn markers_sorted(m: Seq<RemoveMarker>) -> bool {
@@ -46,7 +64,7 @@ pub open spec fn pairs_consistent(m: Seq<RemoveMarker>) -> bool {
     forall|i: int| 0 <= i < m.len() ==> ((#[trigger] m[i]).1 matches Some(j) ==> j < m.len() && j != i && m[j as int].1 == Some(i as usize))
 }
 /// what merge_markers promises about its result for the forest f
-pub open spec fn mm_post(f: Seq<RemovalRangeTree>, out: Seq<RemoveMarker>) -> bool {
+pub open spec fn mm_post(f: Seq<GTree>, out: Seq<RemoveMarker>) -> bool {
     &&& markers_sorted(out)
     &&& (f.len() == 0 <==> out.len() == 0)
     &&& forall|i: int| 0 <= i < out.len() ==> f.len() > 0 && node_lo(f[0]) <= (#[trigger] out[i]).0.start && out[i].0.end <= node_hi(f[f.len() - 1])
